@@ -367,7 +367,9 @@ func encodePID(value reflect.Value, b *lib.Buffer, state *stateEncode) error {
 	if len(pid.Node) > 255 {
 		return ErrAtomTooLong
 	}
-	writeAtom(pid.Node, b, state)
+	if err := writeAtom(pid.Node, b, state); err != nil {
+		return err
+	}
 
 	buf := b.Extend(16)
 	binary.BigEndian.PutUint64(buf[:8], pid.ID)
@@ -385,12 +387,16 @@ func encodeProcessID(value reflect.Value, b *lib.Buffer, state *stateEncode) err
 	if len(p.Node) > 255 {
 		return ErrAtomTooLong
 	}
-	writeAtom(p.Node, b, state)
+	if err := writeAtom(p.Node, b, state); err != nil {
+		return err
+	}
 
 	if len(p.Name) > 255 {
 		return ErrAtomTooLong
 	}
-	writeAtom(p.Name, b, state)
+	if err := writeAtom(p.Name, b, state); err != nil {
+		return err
+	}
 
 	return nil
 }
@@ -404,7 +410,9 @@ func encodeRef(value reflect.Value, b *lib.Buffer, state *stateEncode) error {
 	if len(r.Node) > 255 {
 		return ErrAtomTooLong
 	}
-	writeAtom(r.Node, b, state)
+	if err := writeAtom(r.Node, b, state); err != nil {
+		return err
+	}
 
 	// 8 (creation) + 24 ([3]uint64)
 	buf := b.Extend(8 + 24)
@@ -424,7 +432,9 @@ func encodeAlias(value reflect.Value, b *lib.Buffer, state *stateEncode) error {
 	if len(a.Node) > 255 {
 		return ErrAtomTooLong
 	}
-	writeAtom(a.Node, b, state)
+	if err := writeAtom(a.Node, b, state); err != nil {
+		return err
+	}
 
 	// 8 (creation) + 24 ([3]uint64)
 	buf := b.Extend(8 + 24)
@@ -445,12 +455,16 @@ func encodeEvent(value reflect.Value, b *lib.Buffer, state *stateEncode) error {
 	if len(e.Node) > 255 {
 		return ErrAtomTooLong
 	}
-	writeAtom(e.Node, b, state)
+	if err := writeAtom(e.Node, b, state); err != nil {
+		return err
+	}
 
 	if len(e.Name) > 255 {
 		return ErrAtomTooLong
 	}
-	writeAtom(e.Name, b, state)
+	if err := writeAtom(e.Name, b, state); err != nil {
+		return err
+	}
 
 	return nil
 }
@@ -507,7 +521,9 @@ func encodeAtom(value reflect.Value, b *lib.Buffer, state *stateEncode) error {
 		b.AppendByte(edtAtom)
 	}
 
-	writeAtom(atom, b, state)
+	if err := writeAtom(atom, b, state); err != nil {
+		return err
+	}
 	return nil
 }
 
@@ -698,12 +714,16 @@ func encodeError(value reflect.Value, b *lib.Buffer, state *stateEncode) error {
 	return nil
 }
 
-func writeAtom(atom gen.Atom, b *lib.Buffer, state *stateEncode) {
+func writeAtom(atom gen.Atom, b *lib.Buffer, state *stateEncode) error {
 	// replace atom value if we have mapped value for it
 	if state.options.AtomMapping != nil {
 		v, found := state.options.AtomMapping.Load(atom)
 		if found {
 			atom = v.(gen.Atom)
+			if len(atom) > 255 {
+				// the length above 255 is read as a cache id by the decoder
+				return ErrAtomTooLong
+			}
 		}
 	}
 
@@ -714,7 +734,7 @@ func writeAtom(atom gen.Atom, b *lib.Buffer, state *stateEncode) {
 			if id > 255 {
 				buf := b.Extend(2)
 				binary.BigEndian.PutUint16(buf, id)
-				return
+				return nil
 			}
 		}
 	}
@@ -723,4 +743,5 @@ func writeAtom(atom gen.Atom, b *lib.Buffer, state *stateEncode) {
 	buf := b.Extend(2 + lenAtom)
 	binary.BigEndian.PutUint16(buf[:2], uint16(lenAtom))
 	copy(buf[2:], atom)
+	return nil
 }
